@@ -406,6 +406,17 @@ pub fn apply<E: Elem>(t: &mut TooDee<E>, m: &mut Model<u32>, act: &Act, c: &mut 
                 guarded(|| toodee::CopyOps::clone_from_toodee(t, &src))
             }
         }
+        "clf" => {
+            // Clone::clone_from from a fresh source array of shape a[0] x a[1]
+            let (sc2, sr2) = (a[0], a[1]);
+            if (sc2 == 0) != (sr2 == 0) {
+                return false;
+            }
+            let l = line(sc2 * sr2);
+            *m = Model::from_flat(sc2, sr2, &l);
+            let src: TooDee<E> = TooDee::from_vec(sc2, sr2, mk(sc2 * sr2));
+            guarded(|| t.clone_from(&src))
+        }
         "clr" => {
             m.clear();
             guarded(|| t.clear())
@@ -612,6 +623,19 @@ pub fn actions(c: usize, r: usize, copy: bool, leaks: bool) -> Vec<Act> {
     v.push(Act::new("cfs", &[c + 1, r]));
     v.push(Act::new("cft", &[c, r]));
     v.push(Act::new("cft", &[r, c + 1]));
+    // clone_from: same shape, transposed shape (same cell count), a flat row, empty, larger, smaller
+    let mut srcs: Vec<(usize, usize)> = vec![(c, r), (r, c), (0, 0), (c + 1, r.max(1)), (1, 1)];
+    if c * r > 0 {
+        srcs.push((c * r, 1));
+    }
+    if r > 1 {
+        srcs.push((c, r - 1));
+    }
+    srcs.sort_unstable();
+    srcs.dedup();
+    for (c2, r2) in srcs {
+        v.push(Act::new("clf", &[c2, r2]));
+    }
     v.push(Act::new("flr", &[]));
     v.push(Act::new("flc", &[]));
     // in-place algorithms: one in-range and one out-of-range tuple each
